@@ -139,6 +139,11 @@ Definition run_cmd (m : ovf_mode) (cmd : tok) (args : list tok) : list byte :=
   else if tok_is cmd "SCHED" then run_sched args
   else if tok_is cmd "SCHEDX" then run_sched args     (* implementation side: the calls go through other entry points that generate fresh timestamps *)
   else if tok_is cmd "SCHEDT" then run_sched args     (* implementation side: the clock ticks inside every call; judged by the oracle alone *)
+  else if tok_is cmd "STRESS" then       (* free-running threads on the real clock: threads * calls distinct pairs (C09_unique for any schedule) *)
+    match args with
+    | [t; c] => match get_N t, get_N c with Some a, Some b => join [S_ "OK"; show_N (a * b); S_ "UNIQUE"] | _, _ => bad_case end
+    | _ => bad_case
+    end
   else if tok_is cmd "SCHEDP" then run_sched_pinned args
   else if tok_is cmd "VALIDATE" then run_validate args
   else if tok_is cmd "OPS" then run_ops m args
